@@ -8,6 +8,9 @@ S->I: TLC enumerates every (seed, family, site); the invariant certifies that th
       roto source by this module (representation mapping only) and compiled by the real
       compiler (harness/src/bin/c07.rs).  Required: mutant -> Err with error kind "type";
       seed -> Ok (otherwise generator defect, counted separately, tool error).
+      Namesake dimension: seeds that declare a record / enum / generic enum under the name of a built-in type
+      (Option, Verdict, Result, String, bool, u32, List, ...; templates and the renaming operator of MCTyping.tla)
+      and the families namesake-* that confuse such a type with the built-in where a rule mentions the built-in.
 I->S: seeded random well-typed-by-construction programs (larger than the TLC seeds) and
       random single edits of them are compiled; every event {program, outcome} is validated
       by TLC against WellTyped (TraceTyping.tla).  Rejected programs the judgement accepts
@@ -106,22 +109,26 @@ OPS = {"add": "+", "sub": "-", "mul": "*", "div": "/", "mod": "%", "lt": "<", "l
 ATOMS = {"int", "float", "bool", "str", "unit", "ip", "var", "call", "ctor", "list"}
 
 
-def ty_src(t):
+def ty_src(t, own_option=False):
+    """own_option: the script declares a type called Option of its own, so the path `Option[..]` would not be the
+    built-in: an optional optional is then written with the sugar only (`T??`)"""
     k = t["k"]
     if k == "unit":
         return "()"
     if k == "opt":
-        return ty_src(t["a"]) + "?" if t["a"]["k"] != "opt" else "Option[%s]" % ty_src(t["a"])
+        if t["a"]["k"] != "opt" or own_option:
+            return ty_src(t["a"], own_option) + "?"
+        return "Option[%s]" % ty_src(t["a"], own_option)
     if k == "list":
-        return "List[%s]" % ty_src(t["a"])
+        return "List[%s]" % ty_src(t["a"], own_option)
     if k == "named":
         return t["n"]
     if k == "verdict":
-        return "Verdict[%s, %s]" % (ty_src(t["a"]), ty_src(t["r"]))
+        return "Verdict[%s, %s]" % (ty_src(t["a"], own_option), ty_src(t["r"], own_option))
     if k == "tparam":
         return t["n"]
     if k == "gen":
-        return "%s[%s]" % (t["n"], ", ".join(ty_src(a) for a in t["as"]))
+        return "%s[%s]" % (t["n"], ", ".join(ty_src(a, own_option) for a in t["as"]))
     return k
 
 
@@ -129,6 +136,10 @@ class Printer:
     def __init__(self, prog):
         self.P = prog
         self.N = prog["nodes"]
+        self.own_option = any(d["n"] == "Option" for d in prog["decls"])
+
+    def ty(self, t):
+        return ty_src(t, self.own_option)
 
     def node(self, i):
         return self.N[i - 1]
@@ -171,7 +182,7 @@ class Printer:
         if k == "blk":
             return self.block(i)
         if k == "let":
-            return "let %s%s = %s;" % (n["n"], (": " + ty_src(n["t"][0])) if n["t"] else "", self.expr(n["e"]))
+            return "let %s%s = %s;" % (n["n"], (": " + self.ty(n["t"][0])) if n["t"] else "", self.expr(n["e"]))
         if k == "assign":
             return "%s = %s" % (".".join(n["p"]), self.atom(n["e"]))
         if k == "cassign":
@@ -179,7 +190,8 @@ class Printer:
         if k == "call":
             return "%s(%s)" % (n["f"], ", ".join(self.expr(a) for a in n["args"]))
         if k == "ctor":
-            s = "%s.%s" % (n["en"], n["v"])
+            # en == "": the bare constructors Some(..) / None of the prelude (always the built-in Option)
+            s = "%s.%s" % (n["en"], n["v"]) if n["en"] else n["v"]
             if n["call"]:
                 s += "(%s)" % ", ".join(self.expr(a) for a in n["args"])
             return s
@@ -226,17 +238,17 @@ class Printer:
         k = d["k"]
         tp = "[%s]" % ", ".join(d["tp"]) if d.get("tp") else ""
         if k == "record":
-            return "record %s%s { %s }" % (d["n"], tp, ", ".join("%s: %s" % (f["n"], ty_src(f["t"])) for f in d["fs"]))
+            return "record %s%s { %s }" % (d["n"], tp, ", ".join("%s: %s" % (f["n"], self.ty(f["t"])) for f in d["fs"]))
         if k == "enum":
             vs = []
             for v in d["vs"]:
-                vs.append(v["n"] + ("(%s)" % ", ".join(ty_src(t) for t in v["ts"]) if v["ts"] else ""))
+                vs.append(v["n"] + ("(%s)" % ", ".join(self.ty(t) for t in v["ts"]) if v["ts"] else ""))
             return "enum %s%s { %s }" % (d["n"], tp, ", ".join(vs))
         if k == "const":
-            return "const %s: %s = %s;" % (d["n"], ty_src(d["t"]), self.expr(d["e"]))
-        ps = ", ".join("%s: %s" % (p["n"], ty_src(p["t"])) for p in d["ps"])
+            return "const %s: %s = %s;" % (d["n"], self.ty(d["t"]), self.expr(d["e"]))
+        ps = ", ".join("%s: %s" % (p["n"], self.ty(p["t"])) for p in d["ps"])
         if k == "fn":
-            ret = "" if d["ret"]["k"] == "unit" else " -> " + ty_src(d["ret"])
+            ret = "" if d["ret"]["k"] == "unit" else " -> " + self.ty(d["ret"])
             return "fn %s(%s)%s %s" % (d["n"], ps, ret, self.block(d["body"]))
         if k == "filtermap":
             return "filtermap %s(%s) %s" % (d["n"], ps, self.block(d["body"]))
@@ -269,6 +281,9 @@ def Blk(ss, last=None):
 
 
 FLOAT_LITS = ["1.5", "2.5", "3.0", "4.25", "7.0", "0.5"]
+# built-in names a random program may declare a record / enum under (not List: the generator annotates list types)
+GEN_NAMESAKES = ["Option", "Option", "Verdict", "Result", "String", "String", "bool", "bool", "i32", "u32", "i64", "u8", "f64",
+                 "IpAddr", "Prefix"]
 
 
 class Gen:
@@ -281,6 +296,23 @@ class Gen:
         self.fns = []          # (name, [param types], ret)  callable so far (declared before or self)
         self.counter = 0
         self.decls = []
+        self.ns_pool = []      # built-in names still to be given to declared types (namesakes)
+        self.shadow = set()    # built-in names this program declares a type under: never WRITTEN for the built-in
+
+    def type_name(self, p):
+        """name of the next declared record / enum: a built-in's name while the pool lasts"""
+        if self.ns_pool and self.rng.random() < 0.6:
+            return self.ns_pool.pop()
+        return self.fresh(p)
+
+    def some(self, e):
+        # the bare constructor where the program declares an Option of its own (and now and then elsewhere)
+        bare = "Option" in self.shadow or self.rng.random() < 0.15
+        return {"k": "ctor", "en": "" if bare else "Option", "v": "Some", "args": [e], "call": True}
+
+    def none(self):
+        bare = "Option" in self.shadow or self.rng.random() < 0.15
+        return {"k": "ctor", "en": "" if bare else "Option", "v": "None", "args": [], "call": False}
 
     def fresh(self, p):
         self.counter += 1
@@ -288,13 +320,13 @@ class Gen:
 
     # ----- types
     def num_ty(self):
-        return T(self.rng.choice(["i32", "i32", "u8", "i64", "f64", "u32", "i8", "u64", "f32", "i16", "u16"]))
+        return T(self.rng.choice([x for x in ["i32", "i32", "u8", "i64", "f64", "u32", "i8", "u64", "f32", "i16", "u16"]
+                                  if x not in self.shadow]))
 
     def prim_ty(self):
         r = self.rng.random()
-        if r < 0.55:
-            return self.num_ty()
-        return T("bool") if r < 0.8 else T("String")
+        t = self.num_ty() if r < 0.55 else T("bool") if r < 0.8 else T("String")
+        return self.num_ty() if t["k"] in self.shadow else t
 
     def any_ty(self, depth=0):
         r = self.rng.random()
@@ -324,8 +356,8 @@ class Gen:
             return {"k": "unit"}
         if k == "opt":
             if self.rng.random() < 0.3:
-                return {"k": "ctor", "en": "Option", "v": "None", "args": [], "call": False}
-            return {"k": "ctor", "en": "Option", "v": "Some", "args": [self.lit(t["a"])], "call": True}
+                return self.none()
+            return self.some(self.lit(t["a"]))
         if k == "list":
             return {"k": "list", "es": [self.lit(t["a"]) for _ in range(self.rng.randrange(0, 3))]}
         if k == "named" and t["n"] in self.records:
@@ -391,7 +423,7 @@ class Gen:
         if c == "listlit":
             return {"k": "list", "es": [self.expr(env, t["a"], d) for _ in range(rng.randrange(1, 4))]}
         if c == "some":
-            return {"k": "ctor", "en": "Option", "v": "Some", "args": [self.expr(env, t["a"], d)], "call": True}
+            return self.some(self.expr(env, t["a"], d))
         if c == "make":
             if t["n"] in self.records:
                 fs = [{"n": f, "e": self.expr(env, ft, d)} for f, ft in self.records[t["n"]]]
@@ -446,7 +478,7 @@ class Gen:
         if k in FLOAT_TYS:
             return {"k": "float", "v": self.rng.choice(FLOAT_LITS), "suf": k}
         if k == "opt":
-            return {"k": "ctor", "en": "Option", "v": "Some", "args": [self.expr_definite(env, t["a"], depth - 1)], "call": True}
+            return self.some(self.expr_definite(env, t["a"], depth - 1))
         if k == "list":
             return {"k": "list", "es": [self.expr_definite(env, t["a"], depth - 1)]}
         return self.lit(t)
@@ -551,20 +583,28 @@ class Gen:
     # ----- declarations
     def program(self):
         rng = self.rng
-        for _ in range(rng.randrange(0, 3)):
-            n = self.fresh("R")
+        if rng.random() < 0.3:
+            # namesakes: some of the declared types get the name of a built-in type; the program then never writes
+            # that name for the built-in (it uses the built-in through literals, operators, `T?`, bare Some / None)
+            self.ns_pool = rng.sample(sorted(set(GEN_NAMESAKES)), rng.randrange(1, 4))
+            if rng.random() < 0.5:
+                self.ns_pool[0] = rng.choice(GEN_NAMESAKES)
+            self.ns_pool = list(dict.fromkeys(self.ns_pool))
+            self.shadow = set(self.ns_pool)
+        for _ in range(rng.randrange(1 if self.ns_pool else 0, 3)):
+            n = self.type_name("R")
             fs = [(self.fresh("f"), self.any_ty(1)) for _ in range(rng.randrange(1, 4))]
             self.records[n] = fs
             self.decls.append({"k": "record", "n": n, "fs": [{"n": f, "t": t} for f, t in fs]})
-        for _ in range(rng.randrange(0, 3)):
-            n = self.fresh("E")
+        for _ in range(rng.randrange(1 if self.ns_pool else 0, 3)):
+            n = self.type_name("E")
             vs = [(self.fresh("K"), [self.any_ty(1) for _ in range(rng.choice([0, 0, 1, 1, 2]))]) for _ in range(rng.randrange(1, 4))]
             self.enums[n] = vs
             self.decls.append({"k": "enum", "n": n, "vs": [{"n": v, "ts": ts} for v, ts in vs]})
         # spare type declarations: declared, never constructed, so edits of their members break no other rule
         spare = []
         for _ in range(rng.randrange(1, 4)):
-            n = self.fresh("S")
+            n = self.type_name("S")
             mts = []
             for _ in range(rng.randrange(1, 4)):
                 base = rng.choice([self.prim_ty(), self.prim_ty()] + [Named(x) for x in spare] + [Named(x) for x in sorted(self.records)])
@@ -619,7 +659,7 @@ def random_program(rng, size=3):
 # agree whenever the judgement rejects.
 
 MUT_OPS = ["rec-member", "insert-use", "lit", "rename", "swap-op", "wrap", "arg", "field", "arm", "elem", "annot", "dup-stmt", "del-stmt",
-           "swap-stmt", "insert-exit", "insert-assign", "suffix", "dup-decl", "decl-type", "member", "pattern"]
+           "swap-stmt", "insert-exit", "insert-assign", "suffix", "dup-decl", "decl-type", "member", "pattern", "namesake"]
 
 RANDOM_TYPES = [T("i32"), T("u8"), T("i64"), T("f64"), T("bool"), T("String"), T("unit"), Opt(T("i32")),
                 ListOf(T("u8")), T("u32"), T("i8")]
@@ -650,6 +690,43 @@ EXPR_KINDS = {"int", "float", "bool", "str", "unit", "var", "neg", "not", "bin",
               "fld", "match", "try", "list"}
 
 
+def _rename_ty(t, old, new):
+    if t["k"] in ("named", "gen") and t["n"] == old:
+        t["n"] = new
+    if "a" in t and isinstance(t["a"], dict):
+        _rename_ty(t["a"], old, new)
+    for a in t.get("as", []):
+        _rename_ty(a, old, new)
+
+
+def rename_type(P, old, new):
+    """rename the declared type `old` everywhere it is written (declaration, type expressions, record literals,
+    constructor paths)"""
+    for d in P["decls"]:
+        if d["n"] == old and d["k"] in ("record", "enum"):
+            d["n"] = new
+        for f in d.get("fs", []) + d.get("ps", []):
+            _rename_ty(f["t"], old, new)
+        for v in d.get("vs", []):
+            for t in v["ts"]:
+                _rename_ty(t, old, new)
+        for key in ("t", "ret"):
+            if key in d:
+                _rename_ty(d[key], old, new)
+    for n in P["nodes"]:
+        if n["k"] == "let":
+            for t in n["t"]:
+                _rename_ty(t, old, new)
+        elif n["k"] == "rec" and n["n"] == old:
+            n["n"] = new
+        elif n["k"] == "ctor" and n["en"] == old:
+            n["en"] = new
+
+
+def namesakes_of(prog):
+    return sorted(d["n"] for d in prog["decls"] if d["k"] in ("record", "enum") and d["n"] in BUILTIN_NAMES)
+
+
 def mutate(rng, prog):
     """one random edit; returns (program, operator name) or None when the operator does not apply"""
     P = json.loads(json.dumps(prog))
@@ -666,7 +743,38 @@ def mutate(rng, prog):
         return len(N)
 
     blocks = [i for i, n in enumerate(N) if n["k"] == "blk"]
-    if op == "rec-member":
+    if op == "namesake":
+        # a declared type and a built-in type of the same name: (a) a declared type is renamed to a built-in name
+        # (everywhere, so the program stays well typed unless it also writes that name for the built-in);
+        # (b) `Some(1)?` / accept / reject at the start of a function that returns a namesake; (c) a literal of the
+        # built-in as the value of such a function.  Whether the result is ill typed is for the judgement to say.
+        ns = namesakes_of(P)
+        fns = [d for d in D if d["k"] == "fn" and (d["ret"].get("n") in ns or d["ret"]["k"] in ns)]
+        c = rng.choice(["rename", "exit", "exit", "lit"]) if fns else "rename"
+        if c == "rename":
+            tds = [d for d in D if d["k"] in ("record", "enum")]
+            free = [b for b in BUILTIN_NAMES if all(d["n"] != b for d in D)]
+            if not tds or not free:
+                return None
+            rename_type(P, rng.choice(tds)["n"], rng.choice(free))
+        elif c == "exit":
+            d = rng.choice(fns)
+            w = rng.choice(["try", "try", "accept", "reject"])
+            if w == "try":
+                some = add({"k": "ctor", "en": "", "v": "Some", "args": [add(I(1))], "call": True})
+                st = add({"k": "try", "e": some})
+            else:
+                st = add({"k": "ret", "kind": w, "e": [add(I(1))]})
+            N[d["body"] - 1]["ss"].insert(0, st)
+        else:
+            d = rng.choice(fns)
+            b = N[d["body"] - 1]
+            if not b["last"]:
+                return None
+            N[b["last"][0] - 1] = rng.choice([{"k": "str", "v": "x"}, {"k": "bool", "v": True}, I(1), I(1, "u32"),
+                                              {"k": "ctor", "en": "", "v": "None", "args": [], "call": False},
+                                              {"k": "float", "v": "1.5", "suf": "f64"}])
+    elif op == "rec-member":
         # a member mentioning a declared type (itself or another), plain / under Option / under List, at any position
         tds = [d for d in D if d["k"] in ("record", "enum")]
         if not tds:
@@ -703,7 +811,8 @@ def mutate(rng, prog):
         elif n["k"] in ("assign", "cassign"):
             n["p"][rng.randrange(len(n["p"]))] = new
         elif n["k"] == "ctor":
-            if rng.random() < 0.5:
+            # (a bare constructor has no path: another bare name would not be a constructor at all, so it gets a path)
+            if rng.random() < 0.5 and n["en"]:
                 n["v"] = new
             else:
                 n["en"] = new
@@ -857,7 +966,7 @@ def mutate(rng, prog):
                 e = [] if rng.random() < 0.5 else [add(_rand_lit(rng))]
                 s = add({"k": "ret", "kind": rng.choice(["return", "accept", "reject"]), "e": e})
             else:
-                some = add({"k": "ctor", "en": "Option", "v": "Some", "args": [add(I(1))], "call": True})
+                some = add({"k": "ctor", "en": rng.choice(["Option", ""]), "v": "Some", "args": [add(I(1))], "call": True})
                 s = add({"k": "try", "e": some})
             N[b]["ss"].insert(rng.randrange(len(N[b]["ss"]) + 1), s)
         else:
@@ -933,21 +1042,42 @@ FAMILIES = ["operand-bool", "operand-str", "logic-int", "cond-nonbool", "arg-cou
             "name-undeclared", "name-out-of-scope", "match-drop-arm", "match-after-default",
             "match-dup-arm", "neg-unsigned", "exit-forbidden", "assign-non-local", "redeclare",
             "recursive-type", "recursive-const", "elem-type", "return-type", "let-type", "assign-type",
-            "fallthrough-after-loop", "fallthrough-after-shortcircuit", "cassign-result-type", "match-rename-arm", "name-sibling-scope", "recursive-member"]
+            "fallthrough-after-loop", "fallthrough-after-shortcircuit", "cassign-result-type", "match-rename-arm", "name-sibling-scope", "recursive-member",
+            "namesake-exit", "namesake-operand", "namesake-return", "namesake-arg", "namesake-let", "namesake-field", "namesake-shadow"]
+# the namesake dimension (script types declared under the name of a built-in type, Typing.tla "name resolution")
+NS_FAMILIES = [f for f in FAMILIES if f.startswith("namesake-")]
+NS_SHADOW_RULE = ("a type that cannot equal the expected one (or a recursive type) through a declaration that shadows a "
+                  "built-in name")
+# site kinds of the namesake families that must all occur among the certified mutants (anti-vacuity)
+NS_SITE_KINDS = {"namesake-exit": ["try-ret", "accept-ret", "reject-ret"], "namesake-operand": ["op", "try-operand"],
+                 "namesake-return": ["lit-ret", "ns-ret"]}
+BUILTIN_NAMES = ["i8", "i16", "i32", "i64", "u8", "u16", "u32", "u64", "f32", "f64", "bool", "String", "IpAddr", "Prefix",
+                 "Option", "List", "Verdict", "Result"]
+NS_TIER = {
+    # names, payload types of the templates, families applied to the namesake seeds, types whose seeds are renamed
+    "quick": (["Option", "Verdict", "Result", "String", "bool", "u32", "List", "IpAddr"], ["i32"],
+              NS_FAMILIES[:-1] + ["exit-forbidden", "return-type", "arg-type", "let-type", "operand-str", "cond-nonbool"], ["i32"]),
+    "thorough": (BUILTIN_NAMES, ["i32", "u8"], [f for f in FAMILIES if f != "namesake-shadow"], ["i32", "u8", "f64"]),
+}
 # the rule list of the property statement; every rule must be hit by a family that produced mutants
 RULES = ["operand type / arithmetic or ordering on non-numbers", "operand type", "condition type",
          "wrong argument count", "argument type", "missing, duplicate or unknown record field", "field type",
          "unknown or out-of-scope name", "non-exhaustive match", "unreachable match arm",
          "negating an unsigned value", "?, accept/reject or return where the enclosing item forbids it",
          "assigning to something that is not a local variable", "redeclaring a name in the same scope",
-         "recursive types or constants", "element type", "return type", "assigned value type"]
+         "recursive types or constants", "element type", "return type", "assigned value type", NS_SHADOW_RULE]
 
 
-def mc_cfg(path, tys, max_members):
+def mc_cfg(path, tys, max_members, tier):
+    def tla_set(xs):
+        return "{%s}" % ", ".join('"%s"' % x for x in xs)
+    names, ns_tys, ns_fams, ren_tys = NS_TIER[tier]
     with open(path, "w") as f:
-        f.write("SPECIFICATION MCSpec\nCONSTANTS\n  NumTys = {%s}\n  Families = {%s}\n  MaxMembers = %d\n"
+        f.write("SPECIFICATION MCSpec\nCONSTANTS\n  NumTys = %s\n  Families = %s\n  MaxMembers = %d\n"
+                "  NsNames = %s\n  NsTys = %s\n  NsFamilies = %s\n  RenameTys = %s\n"
                 "INVARIANTS SeedWellTyped MutantIllTyped Emit\nCHECK_DEADLOCK FALSE\n"
-                % (", ".join('"%s"' % t for t in tys), ", ".join('"%s"' % x for x in FAMILIES), max_members))
+                % (tla_set(tys), tla_set(FAMILIES), max_members, tla_set(names), tla_set(ns_tys),
+                   tla_set(ns_fams if ns_fams is not None else FAMILIES), tla_set(ren_tys if ren_tys is not None else tys)))
 
 
 def norm_msg(res):
@@ -963,7 +1093,7 @@ def features(prog):
     for n in prog["nodes"]:
         if n["k"] == "match" and any(a["v"] == "_" and a["g"] for a in n["arms"]):
             fs.add("guarded-wildcard-arm")
-        if (n["k"] == "ctor" and n["en"] == "Option" and n["v"] == "None") or (n["k"] == "list" and not n["es"]):
+        if (n["k"] == "ctor" and n["en"] in ("Option", "") and n["v"] == "None") or (n["k"] == "list" and not n["es"]):
             fs.add("none-or-empty-list-literal")
     return "+".join(sorted(fs)) or "-"
 
@@ -999,11 +1129,57 @@ def classify(res):
     return "other-error"
 
 
+def namesake_guard(tier, seeds, mutants, ev):
+    """anti-vacuity of the namesake dimension: the seeds and certified mutants TLC emitted really declare script types
+    under built-in names, for every name and declaration kind of the tier, and every kind of confusion occurs"""
+    names = NS_TIER[tier][0]
+    ns_seeds = [c for c in seeds if c.get("cls") == "ns"]
+    templ = {}
+    for c in ns_seeds:
+        if c["seed"].startswith("ns_"):
+            _, n, kind, _t = c["seed"].split("_")
+            if n not in c["ns"]:
+                raise vlib.ToolError("namesake seed %s does not declare a type called %s" % (c["seed"], n))
+            templ.setdefault(n, set()).add(kind)
+    renamed = [c for c in ns_seeds if "~" in c["seed"]]
+    missing = [n for n in names if templ.get(n) != {"record", "enum", "genum"}]
+    if missing:
+        raise vlib.ToolError("vacuous namesake dimension: no record/enum/generic-enum template seed for %s" % missing)
+    if not renamed:
+        raise vlib.ToolError("vacuous namesake dimension: the renaming operator produced no well-typed seed")
+    per_family = {f: {} for f in NS_FAMILIES}
+    kinds = {}
+    for m in mutants:
+        if m["family"] not in per_family:
+            continue
+        if not m["ns"]:
+            raise vlib.ToolError("namesake mutant without a namesake declaration: %s %s" % (m["seed"], m["site"]))
+        for n in m["ns"]:
+            per_family[m["family"]][n] = per_family[m["family"]].get(n, 0) + 1
+        w = m["site"].get("w")
+        if w:
+            kinds[(m["family"], w)] = kinds.get((m["family"], w), 0) + 1
+    lacking = [(f, w) for f, ws in NS_SITE_KINDS.items() for w in ws if not kinds.get((f, w))]
+    lacking += [("namesake-exit", n) for n in names if not per_family["namesake-exit"].get(n)]
+    lacking += [(f, "fewer than 3 built-in names") for f in NS_FAMILIES if f != "namesake-field" and len(per_family[f]) < 3]
+    if lacking:
+        raise vlib.ToolError("vacuous namesake dimension: no certified mutant for %s" % lacking)
+    ns_all = [m for m in mutants if m.get("cls") == "ns"]
+    ev.extra["namesake"] = {
+        "builtin_names": names,
+        "template_seeds": sum(1 for c in ns_seeds if c["seed"].startswith("ns_")),
+        "renamed_seeds": len(renamed),
+        "mutants_of_namesake_seeds_all_families": len(ns_all),
+        "mutants_per_namesake_family_and_builtin_name": per_family,
+        "site_kinds": {"%s/%s" % k: v for k, v in sorted(kinds.items())},
+    }
+
+
 def spec_to_impl(tier, ev, verd):
     """S->I: TLC-certified mutants of the TLC seeds are compiled by the real compiler."""
     d = vlib.workdir(PID, "cfg")
     cfg = os.path.join(d, "mc_%s.cfg" % tier)
-    mc_cfg(cfg, ["i32", "u8", "f64"] if tier == "quick" else ALL_TYS, 2 if tier == "quick" else 3)
+    mc_cfg(cfg, ["i32", "u8", "f64"] if tier == "quick" else ALL_TYS, 2 if tier == "quick" else 3, tier)
     r = run_tlc("MCTyping", cfg, workers=6, timeout=1500, heap="8g", coverage=False)
     require_tlc_ok(r, "MCTyping (SeedWellTyped / MutantIllTyped)")
     ev.add_tlc(r)
@@ -1020,6 +1196,7 @@ def spec_to_impl(tier, ev, verd):
     missing = [f for f, n in fam_count.items() if n == 0] + [x for x, n in rule_count.items() if n == 0]
     if missing or not seeds:
         raise vlib.ToolError("vacuous model run: no mutants for %s (seeds=%d)" % (missing, len(seeds)))
+    namesake_guard(tier, seeds, mutants, ev)
     ev.extra["mutants_per_family"] = fam_count
     ev.extra["mutants_per_rule"] = rule_count
     ev.extra["tlc_seeds"] = len(seeds)
@@ -1184,6 +1361,19 @@ def impl_to_spec(tier, ev, verd):
     if missing:
         raise vlib.ToolError("random edit operators never applied: %s" % missing)
     ev.extra["impl_edit_ops"] = ops
+    # anti-vacuity of the namesake dimension on this side: random programs that declare a type under a built-in name
+    # (and use it), and edits of such programs, really occur among the events TLC judged
+    evid = {e["id"] for e in events}
+    ns_seed = [it for it in items if it["op"] == "seed" and it["id"] in evid and namesakes_of(it["prog"])]
+    ns_seed_ok = [it for it in ns_seed if it["cl"] == "ok"]
+    ns_edit = [it for it in items if it["op"] != "seed" and it["id"] in evid and namesakes_of(it["prog"])]
+    ns_names = sorted({n for it in ns_seed_ok for n in namesakes_of(it["prog"])})
+    ev.extra["impl_namesake"] = {"random_programs_declaring_a_namesake": len(ns_seed), "of_these_compiled": len(ns_seed_ok),
+                                 "edited_programs_declaring_a_namesake": len(ns_edit),
+                                 "of_these_rejected": sum(1 for it in ns_edit if it["cl"] == "type"),
+                                 "builtin_names_declared_in_compiled_programs": ns_names}
+    if len(ns_seed_ok) * 10 < nprog or len(ns_names) < 6 or not ns_edit:
+        raise vlib.ToolError("vacuous namesake dimension in the random programs: %s" % ev.extra["impl_namesake"])
     if rejected - len(notes_total) < len(events) // 10:
         raise vlib.ToolError("vacuous trace: the judgement rejected only %d of %d events" % (rejected - len(notes_total), len(events)))
     return events
@@ -1193,6 +1383,9 @@ def binding_selfcheck(mutants, ev):
     """The trace binding must be able to reject: certified ill-typed mutants logged as 'ok' have to be UNMATCHED,
     logged as 'type' they have to be accepted."""
     pick = [m for m in mutants if not m.get("lax_rule")][:: max(1, len(mutants) // 6)][:6]
+    # and one of each namesake family (the judgement has to resolve the shadowed names to reject them)
+    for f in NS_FAMILIES:
+        pick += [m for m in mutants if m["family"] == f][:1]
     good = [{"id": k, "prog": m["prog"], "outcome": "type"} for k, m in enumerate(pick)]
     bad = [{"id": k, "prog": m["prog"], "outcome": "ok"} for k, m in enumerate(pick)]
     u1, _, _ = validate_events(good, "selfcheck_good", ev)
@@ -1222,6 +1415,9 @@ def run(tier):
         "there); only 'judgement rejects => compiler must reject with a type error' is asserted, completeness is not",
         "exhaustive = all sites of all edit families on the finite seed set of the tier; random programs beyond that are seeded samples",
         "an arm for a variant already covered by an earlier unguarded arm counts as 'unreachable match arm' (property statement)",
+        "name resolution (Typing.tla Res / Norm): a record or enum declared under a built-in's name shadows the built-in wherever "
+        "the name is written; `T?`, bare Some / None, literals, operators, accept / reject and filtermap verdicts stay built-in; "
+        "no program declares an item called Some or None",
     ]
     rc = verd.finish()
     ev.write(len(verd.violations))
